@@ -108,8 +108,40 @@ def relax_cut_index(db, cx):
     cx.floor("relaxation cut table subscripts", n, 6)
 
 
+
+def exiting_sampler_rotates(db, cx):
+    """C04.13 (seeded change c04f): ExitingDirectionSampler samples a direction relative to the
+    incident one and hands it out in the lab frame: every return is rotate(<local direction>,
+    <incident direction member>).  A shortcut that returns the local direction for an incident
+    direction along the z axis is wrong for -z (the rotation is a half turn there)."""
+    fs = db.get(C + "ExitingDirectionSampler::operator()")
+    cx.require(fs, "anchor ExitingDirectionSampler::operator() not found")
+    f = fs[0]
+    rets = [e for (_b, _i, e) in f.events("return")]
+    ok = bool(rets)
+    det = []
+    for e in rets:
+        good = C + "rotate" in e.get("calls", []) and \
+            "F:" + C + "ExitingDirectionSampler::direction" in e.get("refs", []) and \
+            (e.get("t") or "").lstrip().startswith("rotate(")
+        if not good:
+            # a local that was defined by rotate(..., direction)
+            lr = sorted(local_refs(e.get("refs", [])))
+            good = len(lr) == 1 and (e.get("t") or "").strip() == lr[0] and all(
+                C + "rotate" in d.get("calls", []) and
+                "F:" + C + "ExitingDirectionSampler::direction" in d.get("refs", [])
+                for (_b2, _i2, d) in f.events("def") if d.get("var") == lr[0])
+        ok = ok and good
+        det.append((e.get("t") or "")[:60])
+    cx.ob("C04.13-exiting-rotated", "ExitingDirectionSampler returns rotate(local direction, incident direction) on every path",
+          ok, "; ".join(det), short(f.loc),
+          why="the primary's direction is computed from this secondary direction by momentum "
+              "conservation (calc_exiting_direction); an unrotated direction conserves energy and "
+              "unit length but not momentum")
+
 def run(db, cx):
     relax_cut_index(db, cx)
+    exiting_sampler_rotates(db, cx)
     # 1. K6
     shared.null_discipline(db, cx, "C04.1-alloc", 10)
 
